@@ -50,10 +50,17 @@ structure XExt where
   validWal : Bytes → Bool
   /-- SQLite checkpointing the WALs into the database -/
   replay   : Bytes → List Bytes → Bytes
+  /-- whether SQLite's checkpoint and the plan's integrity check (VerifyDB) go through on these
+  files (they can refuse a damaged database on their own) -/
+  replayOk : Bytes → List Bytes → Bool := fun _ _ => true
 
 structure Store where
   files   : List DataFile
   verdict : Option Bool := none
+  /-- an interrupted reap plan on disk: how many of the chain's WAL files the interrupted run
+  had already checkpointed into the database (they no longer exist; the database's sidecar is
+  then stale by construction) -/
+  plan    : Option Nat := none
 deriving DecidableEq, Repr
 
 def fileScanOk (E : XExt) (f : DataFile) : Bool :=
@@ -122,6 +129,29 @@ def reap (E : XExt) (s : Store) : Store × ReapRes :=
         let out := E.replay db.content (wals.map (·.content))
         ({ s1 with files := [{ content := out, side := .crc (E.crc out), isDb := true, snap := db.snap }] }, .ok)
 
+/-! ### resuming an interrupted reap plan (`Store.check` at start, `reapInternal`)
+
+The plan's checkpoint operation consumes the chain's WAL files one by one; a crash leaves the
+plan file, the database (already containing the consumed WALs) and the remaining WALs. Since
+the `fix:` commit the resume first checks every remaining WAL against its sidecar, and the
+database too when nothing has been consumed yet; then it checkpoints the rest and records a
+fresh CRC. No `ensureVerified` runs on this path (the store is in a half-reaped state). -/
+
+def resumePlan (E : XExt) (s : Store) : Store × ReapRes :=
+  match s.plan with
+  | none => (s, .noop)
+  | some consumed =>
+    match chainFiles s with
+    | [] => ({ s with plan := none }, .noop)
+    | db :: wals =>
+      let inputs := if consumed = 0 then db :: wals else wals
+      if !inputs.all (fileCrcOk E) then (s, .err)
+      else if !E.replayOk db.content (wals.map (·.content)) then (s, .err)
+      else
+        let out := E.replay db.content (wals.map (·.content))
+        ({ s with plan := none,
+                  files := [{ content := out, side := .crc (E.crc out), isDb := true, snap := db.snap }] }, .ok)
+
 /-! ### the consumers as programs
 
 `Open` and `reapInternal` written as the sequence of steps the Go functions execute, with an
@@ -186,6 +216,7 @@ def stepOfCall (c : String) : Option Step :=
 `new` → ok;  `file db|wal|olddb|oldwal <snapdir#> <contenthex> <side>` → ok   (side: `c<decimal>` | `d` | `b`)
 `setc <i> <hex>` / `sets <i> <side>` → ok | bad-op    (late or early corruption of file i)
 `ensure` → ok | err
+`plan <k>` → ok (an interrupted reap plan is on disk, k chain WALs already consumed);  `resume <replayhex | sqlite-refuses>` → err | noop | ok
 `open` → `err` | `ok <size:crc,…> accept=<bool>`
 `reap <replayhex>` → err | noop | ok   (`replayhex`: what SQLite's checkpoint of the current
                                          files yields; used as the value of `replay`) -/
@@ -193,8 +224,8 @@ def stepOfCall (c : String) : Option Step :=
 structure DState where
   s : Store := { files := [] }
 
-def drvX (rep : Bytes) : XExt :=
-  { crc := crc32c, validDb := validDbC, validWal := validWalC, replay := fun _ _ => rep }
+def drvX (rep : Bytes) (ok : Bool := true) : XExt :=
+  { crc := crc32c, validDb := validDbC, validWal := validWalC, replay := fun _ _ => rep, replayOk := fun _ _ => ok }
 
 def sideTok (t : String) : Option Sidecar :=
   if t == "d" then some .disabled
@@ -234,6 +265,16 @@ def step (d : DState) (line : String) : DState × String :=
       | some fs => ({ s := { d.s with files := fs } }, "ok")
       | none => (d, "bad-op")
     | _, _ => (d, "bad-op")
+  | ["plan", k] =>
+    match k.toNat? with
+    | some k => ({ s := { d.s with plan := some k } }, "ok")
+    | none => (d, "bad-op")
+  | ["resume", rep] =>
+    match (if rep == "sqlite-refuses" then some ([], false) else (tokBytes rep).map (fun b => (b, true))) with
+    | some (rep, ok) =>
+      let (s', r) := resumePlan (drvX rep ok) d.s
+      ({ s := s' }, match r with | .err => "err" | .noop => "noop" | .ok => "ok")
+    | none => (d, "bad-op")
   | ["ensure"] =>
     let (s', v) := ensureVerified (drvX []) d.s
     ({ s := s' }, if v then "ok" else "err")
